@@ -23,6 +23,8 @@ type ndpResponder struct {
 	// Refcount of how many watchers for each solicited node
 	// multicast group.
 	solicitedNodeGroups map[string]int64
+	// The groups the connection is a member of (a join can fail).
+	joinedGroups map[string]bool
 }
 
 func newNDPResponder(logger log.Logger, ifi *net.Interface, ann announceFunc) (*ndpResponder, error) {
@@ -66,12 +68,18 @@ func (n *ndpResponder) Watch(ip net.IP) error {
 	if err != nil {
 		return fmt.Errorf("looking up solicited node multicast group for %q: %s", ip, err)
 	}
-	if n.solicitedNodeGroups[group.String()] == 0 {
+	// The watcher counts even when the join below fails: its Unwatch will come all the same.
+	n.solicitedNodeGroups[group.String()]++
+	if !n.joinedGroups[group.String()] {
+		// Not a member (first watcher, or an earlier join failed): try now.
 		if err = n.conn.JoinGroup(group); err != nil {
 			return fmt.Errorf("joining solicited node multicast group for %q: %s", ip, err)
 		}
+		if n.joinedGroups == nil {
+			n.joinedGroups = map[string]bool{}
+		}
+		n.joinedGroups[group.String()] = true
 	}
-	n.solicitedNodeGroups[group.String()]++
 	return nil
 }
 
@@ -84,7 +92,8 @@ func (n *ndpResponder) Unwatch(ip net.IP) error {
 		return fmt.Errorf("looking up solicited node multicast group for %q: %s", ip, err)
 	}
 	n.solicitedNodeGroups[group.String()]--
-	if n.solicitedNodeGroups[group.String()] == 0 {
+	if n.solicitedNodeGroups[group.String()] == 0 && n.joinedGroups[group.String()] {
+		delete(n.joinedGroups, group.String())
 		if err = n.conn.LeaveGroup(group); err != nil {
 			return fmt.Errorf("leaving solicited node multicast group for %q: %s", ip, err)
 		}
